@@ -259,7 +259,11 @@ class BaseLoader(ABC):
         """
         if self.isPath(url):
             url = "file://" + pathname2url(os.path.abspath(url))
-        newurl, fragment = ZConfig.url.urldefrag(url)
+        try:
+            newurl, fragment = ZConfig.url.urldefrag(url)
+        except ValueError as e:
+            # urllib refuses to split malformed URLs ("http://[::1#x")
+            raise ZConfig.ConfigurationError(f"invalid URL: {e}", url)
         if fragment:
             raise ZConfig.ConfigurationError(
                 "fragment identifiers are not supported",
